@@ -36,13 +36,23 @@ def _mc(rep, max_objs, full_tables, emit):
     return r.results("SCEN")
 
 
+KINDS = ["str", "str", "str"] + sorted(D.FALSY)
+
+
+def _kinds(rng, repl):
+    """What each replacing processor returns: an identifying string or a falsy, non-None value."""
+    return [rng.choice(KINDS) for _ in repl]
+
+
 def _tables(rng, scn, k):
-    """k seeded processor tables for a shape: (procs, repl); the first registers every rule."""
+    """k seeded processor tables for a shape: (procs, repl, replk); the first registers every rule."""
     rel = D.relevant_rules(scn)
-    out = [(list(D.RULES), [r for r in rel if rng.random() < 0.35])]
+    repl = [r for r in rel if rng.random() < 0.35]
+    out = [(list(D.RULES), repl, _kinds(rng, repl))]
     while len(out) < k:
         procs = [r for r in D.RULES if r in rel and rng.random() < 0.6]
-        out.append((procs, [r for r in procs if rng.random() < 0.4]))
+        repl = [r for r in procs if rng.random() < 0.4]
+        out.append((procs, repl, _kinds(rng, repl)))
     return out
 
 
@@ -76,13 +86,13 @@ def validate_traces(items, dev=""):
 def _stored(case, procs, repl, user):
     return dict(rendered=dict(objs=case["objs"], refs=case["refs"], files=case["files"],
                               texts={str(k): v for k, v in case["texts"].items()}, matches=[]),
-                procs=procs, repl=repl, user=user)
+                procs=procs, repl=repl, replk=case.get("replk") or ["str"] * len(repl), user=user)
 
 
 def _restore(c):
     case = dict(c["rendered"])
     case["texts"] = {int(k): v for k, v in case["texts"].items()}
-    case["procs"], case["repl"] = c["procs"], c["repl"]
+    case["procs"], case["repl"], case["replk"] = c["procs"], c["repl"], c.get("replk") or ["str"] * len(c["repl"])
     return case
 
 
@@ -153,12 +163,14 @@ def run(rep):
         "runs; 'inited' = every user-class object created so far has had its __init__ called",
         "the order among sibling subtrees (meta-attribute order, list order) is compared on the fast path only; "
         "a log that differs there is judged by trace validation, which leaves that order free as the property does",
-        "replacement values are non-empty strings; match-rule processors are not part of this check",
+        "replacement values are identifying strings or falsy non-None values (0, '', [], False, (), 0.0); a plain "
+        "value held by an attribute typed with an abstract rule that has a match-rule alternative (Value: Tag | Cell) "
+        "is seen only by the abstract rule's processor; match-rule processors are not part of this check",
     ]
     # (M); in the quick tier the same run hands out its scenario universe (shape x processor table)
     if quick:
         scns = _mc(rep, 3, 2, emit=True)
-        plan = [(s, [(s["procs"], s["repl"])]) for s in scns]
+        plan = [(s, [(s["procs"], s["repl"], s["replk"])]) for s in scns]
         if len(plan) > 1800:
             plan = rng.sample(plan, 1800)
         rep.exhaustive = len(plan) == len(scns)
@@ -186,11 +198,11 @@ def run(rep):
     try:
         batch = []
         for k, (s, tables) in enumerate(plan):
-            for j, (procs, repl) in enumerate(tables):
+            for j, (procs, repl, replk) in enumerate(tables):
                 case = D.render(s, rng)
-                case["procs"], case["repl"] = procs, repl
+                case["procs"], case["repl"], case["replk"] = procs, repl, replk
                 user = bool((k + j) % 2)
-                obs = D.load(case, work, procs, repl, user=user)
+                obs = D.load(case, work, procs, repl, user=user, replk=replk)
                 batch.append((case, procs, repl, user, obs))
         _judge_batch(rep, batch)
         # (I->S)
@@ -202,9 +214,9 @@ def run(rep):
             procs = [x for x in D.RULES if rng.random() < 0.7]
             repl = [x for x in procs if rng.random() < 0.25]
             case = D.render(s, rng)
-            case["procs"], case["repl"] = procs, repl
+            case["procs"], case["repl"], case["replk"] = procs, repl, _kinds(rng, repl)
             user = bool(k % 2)
-            obs = D.load(case, work, procs, repl, user=user)
+            obs = D.load(case, work, procs, repl, user=user, replk=case["replk"])
             items.append((case, obs))
             meta.append((procs, repl, user))
     finally:
@@ -234,7 +246,7 @@ def replay(path):
     case = _restore(c)
     work = tlc.scratch("vt-c13-")
     try:
-        obs = D.load(case, work, c["procs"], c["repl"], user=c["user"])
+        obs = D.load(case, work, c["procs"], c["repl"], user=c["user"], replk=case["replk"])
     finally:
         shutil.rmtree(work, ignore_errors=True)
     for k, v in sorted(case["texts"].items()):
